@@ -10,21 +10,28 @@ package templater
 //@   ensures empty: str == "" ==> result == ""
 //@   ensures failed: old(t.err) != nil ==> result == "" && t.err == old(t.err)
 //@   ensures identity: old(t.err) == nil && len(t.vars) == 0 && len(extra) == 0 ==> result == str
-//@   assigns t.err
+//@   ensures at-most-one-execution: executes() == old(executes()) || executes() == old(executes()) + 1
+//@   ensures process-vars-win: executes() == old(executes()) + 1 ==> typeis(lastTemplateData(), "types.Vars") &&
+//@        (forall k string :: k in extra ==> k in unbox(lastTemplateData(), "types.Vars") && unbox(lastTemplateData(), "types.Vars")[k] == extra[k])
+//@   ensures global-vars-otherwise: executes() == old(executes()) + 1 ==>
+//@        (forall k string :: k in t.vars && !(k in extra) ==> k in unbox(lastTemplateData(), "types.Vars") && unbox(lastTemplateData(), "types.Vars")[k] == t.vars[k])
+//@   assigns t.err, executes(), lastTemplateData()
 
 //@ func (t *Templater) RenderWithExtraVars
-//@   assigns t.err
+//@   assigns t.err, executes(), lastTemplateData()
 //@ func (t *Templater) renderProbe
-//@   assigns t.err, health.ExecProbe.Command[*], health.HttpProbe.Path[*], health.HttpProbe.Host[*], health.HttpProbe.Scheme[*], health.HttpProbe.Port[*], health.HttpProbe.NumPort[*],
+//@   assigns t.err, executes(), lastTemplateData(), health.ExecProbe.Command[*], health.HttpProbe.Path[*], health.HttpProbe.Host[*], health.HttpProbe.Scheme[*], health.HttpProbe.Port[*], health.HttpProbe.NumPort[*],
 //@           health.Probe.InitialDelay[*], health.Probe.PeriodSeconds[*], health.Probe.TimeoutSeconds[*], health.Probe.SuccessThreshold[*], health.Probe.FailureThreshold[*]
 
 // C16 / C13: a process is rendered with ITS OWN replica number: the number is (re)written into the process's
 // variables on every rendering, whatever they contained; identity fields are not touched.
+//@ ghost renderedCfg(string) bool
 //@ func (t *Templater) RenderProcess
 //@   requires proc != nil
+//@   sets renderedCfg(proc.ReplicaName) := true
 //@   ensures replica-var: proc.Vars != nil && "PC_REPLICA_NUM" in proc.Vars && proc.Vars["PC_REPLICA_NUM"] == boxed(proc.ReplicaNum)
 //@   ensures identity-kept: proc.ReplicaNum == old(proc.ReplicaNum) && proc.Replicas == old(proc.Replicas) && proc.ReplicaName == old(proc.ReplicaName) && proc.Name == old(proc.Name)
 //@   ensures vars-kept: old(proc.Vars) != nil ==> proc.Vars == old(proc.Vars)
-//@   assigns proc.Vars, proc.OriginalConfig, proc.Command, proc.WorkingDir, proc.LogLocation, proc.Description, t.err, heap(MapDom.Str.any), heap(MapVal.Str.any),
+//@   assigns proc.Vars, proc.OriginalConfig, proc.Command, proc.WorkingDir, proc.LogLocation, proc.Description, t.err, executes(), lastTemplateData(), heap(MapDom.Str.any), heap(MapVal.Str.any),
 //@           health.ExecProbe.Command[*], health.HttpProbe.Path[*], health.HttpProbe.Host[*], health.HttpProbe.Scheme[*], health.HttpProbe.Port[*], health.HttpProbe.NumPort[*],
 //@           health.Probe.InitialDelay[*], health.Probe.PeriodSeconds[*], health.Probe.TimeoutSeconds[*], health.Probe.SuccessThreshold[*], health.Probe.FailureThreshold[*]
